@@ -8,6 +8,7 @@
 //    precondition (`index_req`) is therefore "the key is present" and the result is the value
 //    `get` would return (same vocabulary as vstd's own `get` specification).
 //  * `(usize, usize)` obeys vstd's hash-table key model (see the axiom below).
+//  * VecDeque::is_empty / contains, HashSet::clone, HashMap::get_mut (see the comments at each).
 //  * `(&collection).into_iter()` for BTreeMap / BTreeSet / HashMap / HashSet: std implements it as
 //        self.iter()
 //    so the contract is literally "whatever `iter` ensures".
@@ -58,6 +59,42 @@ pub mod stdcoll {
     // deterministic, Eq-consistent key as well.
     pub broadcast axiom fn axiom_usize_pair_obeys_key_model()
         ensures #[trigger] vstd::std_specs::hash::obeys_key_model::<(usize, usize)>();
+
+    // ---- VecDeque / HashSet / HashMap operations without a vstd specification ---------------
+    // VecDeque::is_empty: documented as `self.len() == 0`.
+    pub assume_specification<T, A: Allocator>[ std::collections::VecDeque::<T, A>::is_empty ](d: &std::collections::VecDeque<T, A>) -> (r: bool)
+        ensures r == (d@.len() == 0);
+
+    // VecDeque::contains: documented as "true if the deque contains an element equal to the given value"
+    // (`PartialEq::eq`), stated with vstd's model of `==` (eq_spec), under the usual proviso that the
+    // element type's `eq` obeys its spec.
+    pub assume_specification<T: PartialEq, A: Allocator>[ std::collections::VecDeque::<T, A>::contains ](d: &std::collections::VecDeque<T, A>, x: &T) -> (r: bool)
+        ensures <T as vstd::std_specs::cmp::PartialEqSpec>::obeys_eq_spec() ==>
+            r == (exists|i: int| 0 <= i < d@.len() && #[trigger] vstd::std_specs::cmp::PartialEqSpec::eq_spec(&d@[i], x));
+
+    // HashSet::clone: clones every element into a new set; if cloning an element yields an equal
+    // element (true of usize and of every type whose Clone is a copy) the views coincide.
+    pub assume_specification<T: Clone, S: Clone, A: Allocator + Clone>[ <HashSet<T, S, A> as Clone>::clone ](s: &HashSet<T, S, A>) -> (r: HashSet<T, S, A>)
+        ensures (forall|a: T, b: T| #[trigger] cloned(a, b) ==> a == b) ==> r@ == s@;
+
+    // HashMap::get_mut: documented as "returns a mutable reference to the value corresponding to the
+    // key"; nothing else in the map changes.  Same vocabulary as vstd's HashMap::get; `final` is the
+    // value of the map / of the referenced slot when the borrow ends.
+    pub assume_specification<'a, K: Eq + Hash, V, S: BuildHasher, A: Allocator, Q: ?Sized + Hash + Eq>
+        [ HashMap::<K, V, S, A>::get_mut::<Q> ]
+        (m: &'a mut HashMap<K, V, S, A>, k: &Q) -> (r: Option<&'a mut V>)
+        where K: Borrow<Q>
+        ensures
+            vstd::std_specs::hash::obeys_key_model::<K>() && vstd::std_specs::hash::builds_valid_hashers::<S>() ==> match r {
+                Some(v) => vstd::std_specs::hash::contains_borrowed_key(old(m)@, k)
+                    && vstd::std_specs::hash::maps_borrowed_key_to_value(old(m)@, k, *v)
+                    && final(m)@.dom() == old(m)@.dom()
+                    && vstd::std_specs::hash::maps_borrowed_key_to_value(final(m)@, k, *final(v))
+                    && (forall|key: K| #![trigger final(m)@[key]] old(m)@.contains_key(key)
+                            && !vstd::std_specs::hash::contains_borrowed_key(Map::<K, ()>::empty().insert(key, ()), k)
+                            ==> final(m)@[key] == old(m)@[key]),
+                None => !vstd::std_specs::hash::contains_borrowed_key(old(m)@, k) && final(m)@ == old(m)@,
+            };
 
     // ---- by-reference iteration ------------------------------------------------------------
     pub assume_specification<'a, T, A: Allocator + Clone>
